@@ -51,6 +51,9 @@ RULE = ('case = (XSD version, base content model, candidate restriction). Bases:
         'its substitution head, wildcards of 5 (1.1: 8) constraints admitting it — plus maybe one that does not), '
         'sibling?) against the same model with the choice replaced by ONE element whose range is taken around each '
         'branch range × choice range and around the sums over the matching branches (±1), sums-only ranges first. '
+        'and a family `model-kind-change`: small groups of every kind (required/optional items, nested, '
+        'single-item) against the same group with another MODEL KIND (sequence/choice/all) combined with keeping one '
+        'item, dropping the first/last/middle item, single-branch wrappers and reset occurrences, at every group node. '
         'non-trivial = the candidate differs from the base and both types were built '
         'without structural errors; distinct by canonical JSON. Facets: chains of 2-3 restriction steps over '
         'xs:integer / decimal / short / nonNegativeInteger / string / normalizedString / token (the systematic pairs '
@@ -539,6 +542,8 @@ def enumerated_bases() -> list[tuple]:
 def cands_for(ctx: Ctx, fam: str, v11: bool, per_base: int) -> Any:
     if fam == 'element-vs-choice':
         return lambda b: ech_candidates(ctx.rng, b, v11, per_base)
+    if fam == 'model-kind-change':
+        return lambda b: c14.kind_change_candidates(b, v11)
     return None
 
 
@@ -557,6 +562,7 @@ def families(ctx: Ctx):
             if c14.has_refs(m):
                 named.append(m)
         yield 'named-groups', v11, named, ctx.pick(25, 40)
+        yield 'model-kind-change', v11, [c14.kind_change_base(rng, v11) for _ in range(ctx.pick(50, 300))], ctx.pick(26, 40)
         yield 'element-vs-choice', v11, [ech_base(rng, v11) for _ in range(ctx.pick(60, 300))], ctx.pick(14, 24)
 
 
@@ -707,6 +713,8 @@ def attrs_family(ctx: Ctx, drv: Optional[Driver]) -> None:
             b = ax.gen_base(rng, v11)
             pairs.append(('random', b, ax.gen_derived(rng, b, v11)))
         for k in range(0, len(pairs), 50):
+            if search_over() or (SEARCH['deadline'] is not None and ctx.failures):
+                return
             reqs, pend = [], []
             for fam, b, d in pairs[k:k + 50]:
                 try:
@@ -874,9 +882,13 @@ def facets_family(ctx: Ctx, drv: Optional[Driver]) -> None:
     for v, cls in (('1.0', xmlschema.XMLSchema10), ('1.1', xmlschema.XMLSchema11)):
         pairs = sysp if not ctx.quick() else rng.sample(sysp, 220)
         for k in range(0, len(pairs), 40):
+            if search_over():
+                return
             facet_batch(ctx, drv, v, cls, pairs[k:k + 40], 'systematic')
         rnd = [fx.random_chain(rng) for _ in range(ctx.pick(400, 3000))]
         for k in range(0, len(rnd), 40):
+            if search_over() or (SEARCH['deadline'] is not None and ctx.failures):
+                return
             facet_batch(ctx, drv, v, cls, rnd[k:k + 40], 'random')
 
 
@@ -1018,6 +1030,26 @@ def witness_choice_sum(ctx: Ctx) -> None:
         ctx.notes.append(f'elem_choice_sum_counterexample: accepted by the build (valid_d={vd}, valid_b={vb})')
 
 
+def witness_leftover(ctx: Ctx) -> None:
+    """single_branch_choice_over_sequence_refused on the real code (XSD 1.0): choice(a) must be refused against
+    sequence(a, b{1,2}); an acceptance is a failing input (child `a` valid for the derived type only)"""
+    b = G('sequence', [E('a'), E('b', 1, 2)])
+    d = G('choice', [E('a')])
+    schema = c14.build([b], [[d]], False)
+    case = {'v': '1.0', 'base': cm.show(b), 'derived': cm.show(d), 'change': 'kind-sequence-to-choice+keep-one[0]',
+            'b_ast': b, 'd_ast': d, 'witness': 'single_branch_choice_over_sequence_refused'}
+    ctx.case(case, True, tag='lean-counterexample-witness')
+    if schema.types['D0_0'].errors:
+        ctx.count('witness-reconfirmed:single_branch_choice_over_sequence_refused')
+        return
+    vd, vb = confirm(schema, 0, 0, ['a'])
+    if vd and not vb:
+        ctx.failure('accepted restriction admits an instance that the base type rejects', case,
+                    {'witness_children': ['a'], 'valid_for_derived': vd, 'valid_for_base': vb, 'port_accepts': False})
+    else:
+        ctx.notes.append(f'single_branch_choice_over_sequence_refused: accepted by the build (valid_d={vd}, valid_b={vb})')
+
+
 def run(ctx: Ctx, driver_ok: bool) -> None:
     global FUEL
     FUEL = ctx.pick(1500, 3000)
@@ -1031,6 +1063,7 @@ def run(ctx: Ctx, driver_ok: bool) -> None:
     attrs_family(ctx, drv)
     witnesses2(ctx)
     witness_choice_sum(ctx)
+    witness_leftover(ctx)
     open_content_family(ctx, drv)
     witness_oc(ctx)
     if drv is None:
@@ -1046,21 +1079,34 @@ def run(ctx: Ctx, driver_ok: bool) -> None:
             run_batch(ctx, drv, bases[k:k + 6], v11, fam, per_base, cands_for(ctx, fam, v11, per_base))
 
 
+SEARCH = {'deadline': None}
+
+
+def search_over() -> bool:
+    import time
+    return SEARCH['deadline'] is not None and time.time() > SEARCH['deadline']
+
+
 def search(ctx: Ctx) -> None:
-    """a proof obligation or the correspondence broke and no failing input was found yet: widen the
-    exploration (thorough families).  The Lean driver is used whenever its binary exists (the match rule
-    of C14-F0 needs the port); without it only the enumerated family is explored (`lean_less`)."""
+    """a proof obligation or the correspondence broke and no failing input was found yet: widen the exploration
+    (thorough sizes) of the part whose tie broke, for at most ~60 s in the quick tier (10 min in thorough).  The
+    Lean driver is used whenever its binary exists (the match rule of C14-F0 needs the port); without it only the
+    enumerated family is explored (`lean_less`)."""
+    import time
     register_findings(ctx)
     c14.detect_repaired()
     saved = ctx.tier
+    SEARCH['deadline'] = time.time() + (60 if saved == 'quick' else 600)
     ctx.tier = 'thorough'
     ctx.budget_s += 600
     drv = Driver('drv_c14') if Driver('drv_c14').path.exists() else None
+    broke = ' '.join(str(m.get('correspondence', '')) for m in ctx.mismatches)
     try:
-        facets_family(ctx, drv)
-        if not ctx.failures:
+        if 'facet' in broke or not ctx.mismatches:
+            facets_family(ctx, drv)
+        if not ctx.failures and ('attribute' in broke or 'validity for' in broke or not ctx.mismatches):
             attrs_family(ctx, drv)
-        if ctx.failures:
+        if ctx.failures or search_over():
             return
         if drv is None:
             lean_less(ctx)
@@ -1068,11 +1114,12 @@ def search(ctx: Ctx) -> None:
         n0 = len(ctx.mismatches)
         for fam, v11, bases, per_base in families(ctx):
             for k in range(0, len(bases), 6):
-                if ctx.failures or ctx.time_left() < 30 or len(ctx.mismatches) > n0 + 200:
+                if ctx.failures or search_over() or ctx.time_left() < 30 or len(ctx.mismatches) > n0 + 200:
                     return
                 run_batch(ctx, drv, bases[k:k + 6], v11, fam, per_base, cands_for(ctx, fam, v11, per_base))
     finally:
         ctx.tier = saved
+        SEARCH['deadline'] = None
 
 
 def enumerated_family():
